@@ -721,7 +721,7 @@ def worker(args):
 def run(chk):
     quick = chk.tier == 'quick'
     P = (chk.prop, chk.tier)
-    Z = 2 if quick else 3
+    Z = 2 if quick else 4
     LV = 1 if quick else 2
     cases = []
     for nz in range(0, Z + 1):
